@@ -94,7 +94,8 @@ fn worker(args: &[String]) -> i32 {
         // development aid: restrict to jobs whose name contains the filter
         jobs.retain(|j| j.name.contains(&f));
     }
-    let cap_s = if thorough { env_u64("VERIF_THOROUGH_CAP_S", 240) } else { env_u64("VERIF_QUICK_CAP_S", 18) } as f64;
+    // wall cap per job; in the quick tier the whole check stays within ~100 s even on a loaded machine
+    let cap_s = if thorough { env_u64("VERIF_THOROUGH_CAP_S", 240) as f64 } else { (env_u64("VERIF_QUICK_CAP_S", 18) as f64).min(100.0 / jobs.len().max(1) as f64) };
     let scale_pct = env_u64("VERIF_SCALE_PCT", 100);
     let mut agg = Agg::default();
     let start = Instant::now();
